@@ -3,8 +3,8 @@
 SPECS = {
     "C31": {
         "quick": ["c31_scalar_pair", "c31_scalar_triple", "c31_float_pair", "c31_float_triple",
-                  "c31_string_pair", "c31_tuple_pair"],
-        "thorough": ["c31_string_scalar", "c31_vector_pair", "c31_vector8_pair"],
+                  "c31_tuple1_pair", "c31_tuple12_pair", "c31_vector_pair", "c31_vector8_pair"],
+        "thorough": ["c31_string_pair", "c31_string_scalar", "c31_tuple2_pair"],
         "functions": ["<inputlayer::Value as Ord>::cmp", "<Value as PartialOrd>::partial_cmp", "<Value as PartialEq>::eq",
                       "<Value as Hash>::hash", "<Tuple as Ord>::cmp", "<Tuple as PartialEq>::eq", "<Tuple as Hash>::hash"],
         "bounds": {
@@ -13,7 +13,9 @@ SPECS = {
             "c31_string_scalar": "ASCII string (len <= 2) x two arbitrary scalars, all orderings of the triple",
             "c31_vector_pair": "f32 vectors of length <= 2, every f32 bit pattern",
             "c31_vector8_pair": "i8 vectors of length <= 2",
-            "c31_tuple_pair": "tuples of arity <= 2 over arbitrary scalars",
+            "c31_tuple1_pair": "two tuples of arity 1 over arbitrary scalars",
+            "c31_tuple2_pair": "two tuples of arity 2 over arbitrary scalars",
+            "c31_tuple12_pair": "a tuple of arity 1 vs a tuple of arity 2 over arbitrary scalars",
         },
         "assumptions": ["Kani 0.68 / CBMC 6.11 model of rustc MIR for the dev profile", "unwinding assertions on",
                         "hash law checked on the byte stream fed to the Hasher (recording hasher), which implies equal "
@@ -43,5 +45,65 @@ SPECS = {
         "assumptions": ["oracle = classification of statement kinds into Mutating / AdminOnly / Other written from the "
                         "Statement and MetaCommand documentation comments (kani/src/c28.rs classify*, exhaustive matches)"],
         "outside": ["how the handler combines the two gates (C27, C29)", "payloads other than the name bit"],
+    },
+    "C26": {
+        "quick": ["c26_hamming", "c26_probes_h0_p3", "c26_probes_h1_p4", "c26_probes_h2_p0", "c26_probes_h2_p8",
+                  "c26_probes_h3_p8", "c26_probes_h4_p16", "c26_probes_h62_p3", "c26_probes_h64_p3",
+                  "c26_float_mismatch", "c26_int8_dist3", "c26_int8_euclid1", "c26_float_manhattan1", "c26_float_euclid1"],
+        "thorough": ["c26_float_manhattan2"],
+        "functions": ["inputlayer::vector_ops::hamming_distance", "lsh_probes", "euclidean_distance_squared",
+                      "manhattan_distance", "dot_product", "manhattan_distance_int8", "dot_product_int8",
+                      "euclidean_distance_int8"],
+        "bounds": {
+            "*": "see harness",
+            "c26_hamming": "all pairs of i64",
+            "c26_probes_h0_p3": "every i64 bucket; hyperplanes=0, probes=3",
+            "c26_probes_h1_p4": "every i64 bucket; hyperplanes=1, probes=4",
+            "c26_probes_h2_p0": "every i64 bucket; hyperplanes=2, probes=0",
+            "c26_probes_h2_p8": "every i64 bucket; hyperplanes=2, probes=8 (more than exist)",
+            "c26_probes_h3_p8": "every i64 bucket; hyperplanes=3, probes=8",
+            "c26_probes_h4_p16": "every i64 bucket; hyperplanes=4, probes=16",
+            "c26_probes_h62_p3": "every i64 bucket; hyperplanes=62, probes=3",
+            "c26_probes_h64_p3": "every i64 bucket; hyperplanes=64 (clamped to 62), probes=3",
+            "c26_float_mismatch": "dimension mismatch 2 vs 1, every f32 bit pattern",
+            "c26_int8_dist3": "int8 vectors of dimension 3, every i8",
+            "c26_int8_euclid1": "int8 vectors of dimension 1, every i8",
+            "c26_float_manhattan1": "f32 vectors of dimension 1, every finite f32",
+            "c26_float_manhattan2": "f32 vectors of dimension 2, every finite f32",
+            "c26_float_euclid1": "f32 vectors of dimension 1, every finite f32 (non-negativity, zero on identical)",
+        },
+        "assumptions": ["CBMC's IEEE-754 float model", "finite inputs for the float kernels (NaN/inf are outside)"],
+        "outside": ["cosine distances (sqrt and division)", "symmetry of the squared euclidean / dot product on floats "
+                    "(multiplier equivalence: CBMC does not finish)", "dimensions above 3", "quantize/dequantize (float "
+                    "division and rounding: CBMC does not finish within 900 s)",
+                    "LSH bucket determinism under hyperplane-cache clear/resize/eviction and concurrent use (global "
+                    "RwLock<HashMap> + threads: not encodable)", "temporal builtins"],
+    },
+    "C36": {
+        "quick": ["c36_bloom_0_0", "c36_bloom_64_2", "c36_bloom_65_1"],
+        "thorough": ["c36_bloom_1000_2"],
+        "functions": ["inputlayer::bloom_filter::BloomFilter::with_params", "insert", "might_contain", "clear", "len",
+                      "hash_pair (real std DefaultHasher = SipHash-1-3)", "get_bit_index"],
+        "bounds": {
+            "c36_bloom_0_0": "with_params(0,0) (clamped to 64 bits / 1 hash), one arbitrary u64 key, clear, re-insert",
+            "c36_bloom_64_2": "with_params(64,2), two arbitrary u64 keys, clear, re-insert",
+            "c36_bloom_65_1": "with_params(65,1) (rounded to 128 bits), two arbitrary u64 keys",
+            "c36_bloom_1000_2": "with_params(1000,2), one arbitrary u64 key",
+        },
+        "assumptions": ["keys are #[derive(Hash)] wrappers of a u64 (one 8-byte write into the real SipHash)"],
+        "outside": ["hash counts above 2 (CBMC timed out at 900 s for k=3 and k=7)", "BloomFilter::new (parameter "
+                    "computation through f64::ln, not modelled by CBMC; it always yields >=64 bits and 1..=16 hashes)",
+                    "HashIndex (HashMap<Tuple, Vec<Tuple>>: a single HashMap insert does not finish under CBMC); its "
+                    "lookup correctness reduces to this bloom property plus Hash/Eq consistency of Tuple (C31) - an "
+                    "argument, not a solver verdict"],
+    },
+    "C05K": {
+        "quick": ["c05_remap0", "c05_remap1", "c05_remap2"],
+        "thorough": [],
+        "functions": ["inputlayer::optimizer::Optimizer::remap_projection_for_join_flatmap"],
+        "bounds": {"*": "left width 0..3, right width 3, right key list of length 0/1/2 with arbitrary (possibly equal) "
+                        "key columns, every join-output index"},
+        "assumptions": [],
+        "outside": [],
     },
 }
